@@ -10,6 +10,8 @@ import (
 	"os/exec"
 	"strconv"
 	"strings"
+	"sync"
+	"sync/atomic"
 	"syscall"
 	"time"
 
@@ -464,7 +466,13 @@ type attack struct {
 func c07attack(r *rng.R, i int) attack {
 	var a attack
 	a.End = rng.Pick(r, []string{"fin", "rst", "halfclose", "fin", "rst"})
-	switch r.Intn(8) {
+	switch r.Intn(9) {
+	case 8:
+		// one connection floods CONFIG SET/GET while other clients connect and go away (handled by configChurn)
+		a.Kind = "config-set-flood-vs-connection-churn"
+		a.End = "concurrent"
+		a.Stream = []byte(fmt.Sprintf("config-churn-%d", i))
+		return a
 	case 7:
 		// not an attack on the parser but on the reply path: another client fetches large replies while the
 		// witness is slow to pick up its own large reply (handled by slowWitness, no stream of its own)
@@ -633,6 +641,18 @@ func c07session(idx int) run.Result {
 			}
 			continue
 		}
+		if a.Kind == "config-set-flood-vs-connection-churn" {
+			bad := configChurn(srv.port, n, &res, wit)
+			res.Count("witness_exchanges", 1)
+			if bad != "" {
+				fail("C07:witness-disturbed:"+a.Kind, "every other connection continues to receive the correct replies to its own requests and new connections are accepted", bad)
+				if !restart() {
+					res.Inconclusive = "could not restart server child"
+					return res
+				}
+			}
+			continue
+		}
 		if a.End == "concurrent" {
 			bad, inconcl := slowWitness(srv.port, n, &res)
 			res.Count("witness_exchanges", 1)
@@ -785,6 +805,108 @@ func slowWitness(port int, n string, res *run.Result) (bad string, inconclusive 
 	return "", ""
 }
 
+// configChurn: one connection pipelines CONFIG SET / CONFIG GET as fast as it can while twelve others connect,
+// PING and vanish over and over; the witness keeps doing exact SET/GET exchanges. Every exchange has a 10 s
+// deadline (a watchdog: a reply that does not come at all is the violation, not a slow one).
+func configChurn(port int, n string, res *run.Result, wit *tcpClient) string {
+	stop := make(chan struct{})
+	var wg sync.WaitGroup
+	var churnErr, floodErr atomic.Value
+	wg.Add(1)
+	go func() {
+		defer wg.Done()
+		c, err := dialSrv(port)
+		if err != nil {
+			return
+		}
+		defer c.c.Close()
+		for i := 0; ; i++ {
+			select {
+			case <-stop:
+				return
+			default:
+			}
+			c.c.SetDeadline(time.Now().Add(10 * time.Second))
+			var batch []byte
+			for k := 0; k < 16; k++ {
+				batch = append(batch, resp.Encode(resp.Cmd("CONFIG", "SET", "verif-"+n, fmt.Sprint(i*16+k)))...)
+			}
+			if _, err := c.c.Write(batch); err != nil {
+				floodErr.Store(err.Error())
+				return
+			}
+			for k := 0; k < 16; k++ {
+				if _, err := c.read(); err != nil {
+					floodErr.Store(err.Error())
+					return
+				}
+			}
+		}
+	}()
+	for w := 0; w < 12; w++ {
+		wg.Add(1)
+		go func() {
+			defer wg.Done()
+			for {
+				select {
+				case <-stop:
+					return
+				default:
+				}
+				c, err := dialSrv(port)
+				if err != nil {
+					continue
+				}
+				c.c.SetDeadline(time.Now().Add(10 * time.Second))
+				if _, err := c.c.Write(resp.Encode(resp.Cmd("PING"))); err == nil {
+					if _, err := c.read(); err != nil {
+						churnErr.Store("a freshly connected client got no reply to PING: " + err.Error())
+					}
+				}
+				c.c.(*net.TCPConn).SetLinger(0)
+				c.c.Close()
+			}
+		}()
+	}
+	bad := ""
+	exchanges := 0
+	for i := 0; i < 600 && bad == ""; i++ {
+		k, v := fmt.Sprintf("w:%s:%d", n, i), fmt.Sprint(i)
+		wit.c.SetDeadline(time.Now().Add(10 * time.Second))
+		if _, err := wit.c.Write(resp.EncodeAll(resp.Cmd("SET", k, v), resp.Cmd("GET", k))); err != nil {
+			bad = "witness write: " + err.Error()
+			break
+		}
+		r1, err := wit.read()
+		if err != nil {
+			bad = fmt.Sprintf("the witness got no reply to SET (exchange %d) while another connection flooded CONFIG SET and clients connected: %v", i, err)
+			break
+		}
+		r2, err := wit.read()
+		if err != nil {
+			bad = fmt.Sprintf("the witness got no reply to GET (exchange %d): %v", i, err)
+			break
+		}
+		if s, ok := strOf(r1); !ok || s != "OK" {
+			bad = "witness SET answered " + r1.String()
+		} else if s, ok := strOf(r2); !ok || s != v {
+			bad = fmt.Sprintf("witness GET %s answered %s", k, r2)
+		}
+		exchanges++
+	}
+	close(stop)
+	wg.Wait()
+	res.Count("config_churn_witness_exchanges", int64(exchanges))
+	if bad == "" {
+		if e, _ := churnErr.Load().(string); e != "" {
+			bad = e
+		} else if e, _ := floodErr.Load().(string); e != "" {
+			bad = "the CONFIG SET connection itself stopped getting replies: " + e
+		}
+	}
+	return bad
+}
+
 // txQueue returns the unsent bytes queued on the socket srvPort->cliPort (any process in this network namespace).
 func txQueue(srvPort, cliPort int) int64 {
 	l, r := fmt.Sprintf(":%04X", srvPort), fmt.Sprintf(":%04X", cliPort)
@@ -821,7 +943,7 @@ func init() {
 	run.Register(&run.Prop{
 		ID: "C07", Level: "exploration",
 		Rule: func(tier string) string {
-			return "two monitors. (in-process, hook H1, handlers: bundled example store and a recording double alternating) complete boundary-argument sweep of index/count/limit/score arithmetic (12x12 grids of {-2^63..2^63-1} for GETRANGE/SUBSTR/LRANGE/ZRANGE/ZREVRANGE, LIMIT offset x count grids, 12x12 score-bound grids, extreme ints/floats, empty and wrong-type keys) on populated and missing keys, in batches of 60 requests; then seeded pipelines (C03), hostile streams (C06), top-level values and malformed handler results (C04) ending in EOF or reset. Oracle: no panic reaches the wrapper around the connection loop, the loop returns, the connection is closed and deregistered, replies are well-framed, sweeps stay in sync to a trailing ECHO. (process level) sessions against a child running the real example server on a real TCP port under RLIMIT_AS=4GiB: an attacker connection plays one hostile case and ends by FIN, RST (SO_LINGER 0), half-close, mid-request cut or never reading; a witness connection opened before does SET/GET/ECHO around each attack and must get exact replies; in one attack class out of eight a slow-reading witness (32 KiB receive buffer) fetches its own 8 MiB value while another client fetches a different 8 MiB value four times, and both must get exactly their own bytes; a fresh dial + PING must succeed; child exit = violation. distinct = hash of stream+handler (in-process) / attack stream+ending (process level)"
+			return "two monitors. (in-process, hook H1, handlers: bundled example store and a recording double alternating) complete boundary-argument sweep of index/count/limit/score arithmetic (12x12 grids of {-2^63..2^63-1} for GETRANGE/SUBSTR/LRANGE/ZRANGE/ZREVRANGE, LIMIT offset x count grids, 12x12 score-bound grids, extreme ints/floats, empty and wrong-type keys) on populated and missing keys, in batches of 60 requests; then seeded pipelines (C03), hostile streams (C06), top-level values and malformed handler results (C04) ending in EOF or reset. Oracle: no panic reaches the wrapper around the connection loop, the loop returns, the connection is closed and deregistered, replies are well-framed, sweeps stay in sync to a trailing ECHO. (process level) sessions against a child running the real example server on a real TCP port under RLIMIT_AS=4GiB: an attacker connection plays one hostile case and ends by FIN, RST (SO_LINGER 0), half-close, mid-request cut or never reading; a witness connection opened before does SET/GET/ECHO around each attack and must get exact replies; in one attack class out of eight a slow-reading witness (32 KiB receive buffer) fetches its own 8 MiB value while another client fetches a different 8 MiB value four times, and both must get exactly their own bytes; in another class one connection floods CONFIG SET while twelve others connect, PING and vanish in a loop and the witness does 600 exact SET/GET exchanges; a fresh dial + PING must succeed; child exit = violation. distinct = hash of stream+handler (in-process) / attack stream+ending (process level)"
 		},
 		Assumptions: []string{"allocation behaviour is judged under RLIMIT_AS=4GiB", "handlers other than the example store are represented by the recording double (non-panicking)"},
 		Setup: func(tier string, seed uint64) int {
